@@ -710,13 +710,57 @@ func toLower(s string) String {
 	return unicodeStringFromRunes(r)
 }
 
+// mapWellFormed applies a case mapping (which works on UTF-8 Go strings) to s. A string containing lone
+// surrogates cannot be converted to UTF-8 without losing them, so it is mapped run by run and the lone
+// surrogates are copied through unchanged.
+func (s unicodeString) mapWellFormed(f func(string) String) String {
+	units := s[1:]
+	lone := func(i int) bool {
+		c := units[i]
+		if isUTF16FirstSurrogate(c) {
+			return i+1 >= len(units) || !isUTF16SecondSurrogate(units[i+1])
+		}
+		if isUTF16SecondSurrogate(c) {
+			return i == 0 || !isUTF16FirstSurrogate(units[i-1])
+		}
+		return false
+	}
+	hasLone := false
+	for i := range units {
+		if lone(i) {
+			hasLone = true
+			break
+		}
+	}
+	if !hasLone {
+		return f(s.String())
+	}
+	var sb StringBuilder
+	start := 0
+	for i := range units {
+		if lone(i) {
+			if i > start {
+				sb.WriteString(f(string(utf16.Decode(units[start:i]))))
+			}
+			sb.WriteSubstring(s, i, i+1)
+			start = i + 1
+		}
+	}
+	if start < len(units) {
+		sb.WriteString(f(string(utf16.Decode(units[start:]))))
+	}
+	return sb.String()
+}
+
 func (s unicodeString) toLower() String {
-	return toLower(s.String())
+	return s.mapWellFormed(toLower)
 }
 
 func (s unicodeString) toUpper() String {
-	caser := cases.Upper(language.Und)
-	return newStringValue(caser.String(s.String()))
+	return s.mapWellFormed(func(str string) String {
+		caser := cases.Upper(language.Und)
+		return newStringValue(caser.String(str))
+	})
 }
 
 func (s unicodeString) Export() interface{} {
